@@ -279,6 +279,7 @@ class SciPyOptimizer(Optimizer):
         lin_coef: NDArray[np.float64] | None,
     ) -> NDArray[np.float64]:
         assert self._normalized_constraints is not None
+        self._reset_cache_if_needed(variables)
         if self._normalized_constraints.constraints is None:
             constraints = []
             if self._config.nonlinear_constraints is not None:
@@ -298,6 +299,7 @@ class SciPyOptimizer(Optimizer):
         lin_coef: NDArray[np.float64] | None,
     ) -> NDArray[np.float64]:
         assert self._normalized_constraints is not None
+        self._reset_cache_if_needed(variables)
         if self._normalized_constraints.gradients is None:
             gradients = []
             if self._config.nonlinear_constraints is not None:
@@ -406,16 +408,7 @@ class SciPyOptimizer(Optimizer):
         if self._method in _NO_GRADIENT:
             get_gradient = False
 
-        if (
-            self._cached_variables is None
-            or variables.shape != self._cached_variables.shape
-            or not np.allclose(variables, self._cached_variables)
-        ):
-            self._cached_variables = None
-            self._cached_function = None
-            self._cached_gradient = None
-            if self._normalized_constraints is not None:
-                self._normalized_constraints.reset()
+        self._reset_cache_if_needed(variables)
 
         function = self._cached_function if get_function else None
         gradient = self._cached_gradient if get_gradient else None
@@ -444,6 +437,21 @@ class SciPyOptimizer(Optimizer):
                     gradient = new_gradient
 
         return function, gradient
+
+    def _reset_cache_if_needed(self, variables: NDArray[np.float64]) -> None:
+        # All cached values, including the normalized constraints, belong to
+        # the point stored in self._cached_variables. Any of the callables may
+        # be the first to be invoked at a new point.
+        if (
+            self._cached_variables is None
+            or variables.shape != self._cached_variables.shape
+            or not np.allclose(variables, self._cached_variables)
+        ):
+            self._cached_variables = variables.copy()
+            self._cached_function = None
+            self._cached_gradient = None
+            if self._normalized_constraints is not None:
+                self._normalized_constraints.reset()
 
     def _compute_functions_and_gradients(
         self,
